@@ -18,6 +18,7 @@ import copy
 import itertools
 import random
 
+import c04entry
 import c04time
 import env
 import pipeline
@@ -457,6 +458,8 @@ def run(ctx):
     ctx.correspond("response_kinds_time_grid", pipeline.IMPORTS + " Model.C04Kinds", "show_kind", "(kind * binding * cfg * response)", kind_cases, shard=250)
     run_expiry(ctx)
     run_histories(ctx, cells)
+    import sys
+    c04entry.run(ctx, sys.modules[__name__])      # the other entry points; the process time zone
 
 
 def run_expiry(ctx):
@@ -531,6 +534,9 @@ def replay(ctx, payload):
     c = payload.get("input")
     if isinstance(c, dict) and c.get("unit") == "time":
         return c04time.replay(c)
+    if isinstance(c, dict) and c.get("unit") in ("entry", "zone", "zonetext"):
+        import sys
+        return c04entry.replay(sys.modules[__name__], c)
     print("replay cell:", c)
     if not isinstance(c, dict) or "focus" not in c or c["focus"] == "expiry":
         return 0
